@@ -46,7 +46,7 @@ Record Inv (s : st) (m : mem) (g : ghost) : Prop := mkInv {
   i_wlow : forall a, In a (g_written g) -> s_hb s + header_size <= a;
   i_llow : forall p sz, In (p, sz) (g_live g) -> s_hb s + header_size <= p;
   i_dead : g_dead g = s_poisoned s;
-  i_pages : m_pages m <= m_max m /\ m_max m <= max_wasm_pages;
+  i_pages : m_pages m <= max_wasm_pages;
   i_gpages : g_pages g = m_pages m;
   i_struct : s_poisoned s = false -> exists B lv, Struct s m g B lv
 }.
